@@ -42,9 +42,6 @@ class FrameItem(EFLRItem):
         self.index_min = NumericAttribute('index_min')
         self.index_max = NumericAttribute('index_max')
 
-        #: (attribute, part, value) triples derived from the data at the last write - as opposed to set by the user
-        self._derived_from_data: list = []
-
         super().__init__(name, parent=parent, **kwargs)
 
     @staticmethod
@@ -98,15 +95,12 @@ class FrameItem(EFLRItem):
 
             if getattr(attr, key) is None and value is not None:
                 logger.debug(f"Setting {attr.label}.{key} of {self} to {value}")
-                setattr(attr, key, value)
-                self._derived_from_data.append((attr, key, getattr(attr, key)))
+                attr.set_derived(key, value)
 
         # forget what was derived from the data of an earlier write (unless the user has assigned the part since then),
         # so that the index characteristics always describe the rows written now
-        for attr, key, value in self._derived_from_data:
-            if getattr(attr, key) is value:
-                setattr(attr, '_' + key, None)
-        self._derived_from_data = []
+        for attr in (self.index_min, self.index_max, self.spacing, self.direction):
+            attr.forget_derived()
 
         index_channel: ChannelItem = self.channels.value[0]
         index_data = data[index_channel.name][:]
